@@ -20,7 +20,8 @@ from .cfg import CFG, suspension_may_raise, reaching_defs, defs_reaching, \
 from .inline import Inliner, InlineBlock, acopy
 
 
-PURE_CALLS = {"len", "int", "bool", "abs", "min", "max"}
+PURE_CALLS = {"len", "int", "bool", "abs", "min", "max", "isinstance",
+              "issubclass", "hasattr", "callable"}
 
 
 def _selects_callable(e):
@@ -159,6 +160,16 @@ def _flag_expr(e):
             e.ops[0], (ast.Is, ast.IsNot)):
         return isinstance(e.left, ast.Name) and isinstance(
             e.comparators[0], ast.Constant)
+    if isinstance(e, ast.Compare) and len(e.ops) == 1 and isinstance(
+            e.ops[0], (ast.In, ast.NotIn, ast.Eq, ast.NotEq)):
+        return all(isinstance(x, (ast.Name, ast.Constant))
+                   for x in [e.left] + e.comparators)
+    if isinstance(e, ast.Call) and isinstance(e.func, ast.Name) and \
+            e.func.id == "isinstance" and len(e.args) == 2 and \
+            not e.keywords and isinstance(e.args[0], ast.Name):
+        return all(isinstance(x, (ast.Name, ast.Attribute, ast.Tuple,
+                                  ast.Load))
+                   for x in ast.walk(e.args[1]))
     return False
 
 
